@@ -6,7 +6,7 @@
    and every pattern of returning / panicking tasks; [ids] is any duplicate-free universe containing the submitted ids. *)
 From Coq Require Import List ZArith Bool.
 From V Require Import Lib.Enc Gen.ConstsGoz Model.Limiter Run.C19 Proofs.Limiter Proofs.LimiterShape Proofs.LimiterRun Proofs.LimiterSim
-  Proofs.LimiterJudgeTrace Proofs.LimiterJudgeSim Proofs.LimiterJudge.
+  Proofs.LimiterJudgeTrace Proofs.LimiterJudgeSim Proofs.LimiterJudge Proofs.LimiterJudgeWait.
 Import ListNotations.
 
 (* the code still has the statement order the event model stands for (regenerated from goz.go on every run):
@@ -137,3 +137,30 @@ Theorem c19_judge_accepts_model_tokens : forall case, wf_case case = true ->
   entry 2 (put_list case ++ put_list (entry 0 case)) = [1%Z] /\ entry 0 case <> [NOFUEL].
 Proof. exact judge_accepts_entry. Qed.
 Print Assumptions c19_judge_accepts_model_tokens.
+
+(* Wait(d) with a timeout, as two more events on top of the event model (evt / step_t / accepts_t; the Go method returns nothing,
+   [ok] names the select branch taken): c19_wait_after_all extended — Wait() and the quit branch of Wait(d) stand only where every
+   function submitted before has finished, in traces that may contain timeout events anywhere *)
+Theorem c19_wait_after_all_with_timeout : forall ids n tr1 e tr2 s,
+  NoDup ids -> (forall i, In (Ev (Submit i)) tr1 -> In i ids) ->
+  e = Ev WaitReturn \/ e = WaitTimeoutReturn true ->
+  accepts_t (new_limiter n) (tr1 ++ e :: tr2) = Some s ->
+  exists s1, accepts_t (new_limiter n) tr1 = Some s1 /\ forall i, In (Ev (Submit i)) tr1 -> tasks s1 i = Finished.
+Proof. exact wait_timeout_after_all. Qed.
+Print Assumptions c19_wait_after_all_with_timeout.
+(* the timer branch is enabled in every state (it implies nothing: here a task is still running), while in that state neither
+   the quit branch nor Wait() can return *)
+Theorem c19_wait_timeout_may_expire :
+  (forall s, step_t s (WaitTimeoutReturn false) = Some s) /\
+  (exists s, accepts_t (new_limiter 1) [Ev (Submit 0); Ev (Start 0); WaitTimeoutReturn false] = Some s /\ tasks s 0 = Running) /\
+  accepts_t (new_limiter 1) [Ev (Submit 0); Ev (Start 0); WaitTimeoutReturn true] = None /\
+  accepts_t (new_limiter 1) [Ev (Submit 0); Ev (Start 0); Ev WaitReturn] = None.
+Proof. exact wait_timeout_may_expire. Qed.
+Print Assumptions c19_wait_timeout_may_expire.
+(* timeout events never change the state: the base events of an accepted trace are accepted by the event model with the same final
+   state, so every theorem above applies to them; without timeout events acceptance is what it was *)
+Theorem c19_wait_timeout_transparent :
+  (forall tr s s', accepts_t s tr = Some s' -> accepts s (base_events tr) = Some s') /\
+  (forall tr s, accepts_t s (map Ev tr) = accepts s tr).
+Proof. exact wait_timeout_transparent. Qed.
+Print Assumptions c19_wait_timeout_transparent.
